@@ -81,7 +81,8 @@ SPECS = {
     },
     "C10": {
         "scenarios": [{"name": "offpolicy", "runs": {"quick": 240, "thorough": 1000000}, "chunks": {"quick": 2, "thorough": 2}},
-                      {"name": "train", "runs": {"quick": 16, "thorough": 1000000}, "chunks": {"quick": 1, "thorough": 1}}],
+                      {"name": "train", "runs": {"quick": 16, "thorough": 1000000}, "chunks": {"quick": 1, "thorough": 1}},
+                      {"name": "peers", "runs": {"quick": 40, "thorough": 1000000}, "chunks": {"quick": 1, "thorough": 1}}],
         "budget_s": {"quick": 600, "thorough": 1200},
         "rule": "one evaluation = one seeded iteration history (reset + 1..6 real iterations, driven from Python exactly as learn scans them); "
         "RefSchedule checks the iteration counter, DQN hard copies on multiples of the interval and frozen targets in between (exact), SAC "
@@ -92,7 +93,8 @@ SPECS = {
         "stub": STUB_MDP[:3],
     },
     "C01": {
-        "scenarios": [{"name": "protocol", "runs": {"quick": 120, "thorough": 1000000}, "chunks": {"quick": 1, "thorough": 1}}],
+        "scenarios": [{"name": "protocol", "runs": {"quick": 120, "thorough": 1000000}, "chunks": {"quick": 1, "thorough": 1}},
+                      {"name": "peers", "runs": {"quick": 60, "thorough": 1000000}, "chunks": {"quick": 1, "thorough": 1}}],
         "budget_s": {"quick": 600, "thorough": 1200},
         "rule": "one evaluation = one seeded operation sequence (reset / step / functional calls / 256-reset batch, 5..60 ops) on a wrapper-stack "
         "program over a drawn SimMDP; every step and reset is refined against RefMDP∘RefStack from the INPUT state (reward, flags, fresh state on "
@@ -103,7 +105,8 @@ SPECS = {
         "stub": ["SimMDP finite-MDP environments (tables drawn per run)"],
     },
     "C13": {
-        "scenarios": [{"name": "protocol", "runs": {"quick": 120, "thorough": 1000000}, "chunks": {"quick": 1, "thorough": 1}}],
+        "scenarios": [{"name": "protocol", "runs": {"quick": 120, "thorough": 1000000}, "chunks": {"quick": 1, "thorough": 1}},
+                      {"name": "peers", "runs": {"quick": 60, "thorough": 1000000}, "chunks": {"quick": 1, "thorough": 1}}],
         "budget_s": {"quick": 600, "thorough": 1200},
         "rule": "one evaluation = one seeded operation sequence on a wrapper-stack program (all 11 documented wrappers, depth 0..4) over a drawn "
         "SimMDP, incl. direct calls of every functional component, bound corners fed explicitly, construction of every documented wrapper, "
